@@ -63,7 +63,7 @@ def main():
     not_applicable = [{"property_id": p["id"], "reason": na[p["id"]]} for p in props if p["id"] not in claimed]
     m = {
         "version": 1,
-        "setup_cmd": "python3 tools/build.py plain sched",
+        "setup_cmd": "python3 tools/build.py plain sched asan msan miri",
         "hooks": {
             "guard": "--cfg jxl_oxide_verif (H1 alloc counters/fail-from-k, H2 simulated thread pool, H3b render probe) and --cfg jxl_oxide_verif_shuttle (H3a: render-handle Mutex/Condvar from shuttle)",
             "enable": "RUSTFLAGS='--cfg jxl_oxide_verif' via tools/build.py; --cfg jxl_oxide_verif_shuttle only builds through the shadow manifests generated under /verif/shadow (shuttle is not a dependency of the repository)",
